@@ -301,6 +301,9 @@ def check_call_sites(rep, repo, fw, wf, rf):
                                 for x_ in branches(r_[1][i_]):
                                     for y_ in branches(r_[1][i_ + 1]):
                                         produced.add((x_, y_))
+            if any(contains(x_, lambda z: z[0] == 'top') for x_ in b1 + b2):
+                rep.inconclusive('C13.R5', repo.method(cls, 'generate_instances').where, 'the arrays passed for %s / %s are in closed form' % (ta, la), got=[show(x_)[:60] for x_ in b1 + b2][:3])
+                continue
             pair_ok = bool(b1) and bool(b2) and all(any((x, y) in produced or contains(y, lambda z, x=x: z == x) for x in b1) for y in b2)
             rep.check(pair_ok, 'C13.R5', repo.method(cls, 'generate_instances').where, 'the indicator array passed for %s is the one drawn for the list array passed for %s' % (ta, la),
                       got='%s ; %s' % (show(A1)[:80] if A1 else None, show(A2)[:80] if A2 else None), want='ties drawn per list of that very array',
